@@ -26,6 +26,7 @@ type Opts struct {
 	Icons       bool
 	Classes     bool
 	Direction   bool
+	Tooltips    bool
 	SpecialOnly string // "grid" | "sequence" | "near": make that construct the point of the diagram
 }
 
@@ -48,9 +49,9 @@ type Diagram struct {
 
 var Shapes = []string{"rectangle", "square", "circle", "oval", "diamond", "hexagon", "cloud", "cylinder", "queue", "package", "step", "callout", "stored_data", "person", "page", "parallelogram", "document"}
 var plainNames = []string{"a", "b", "c", "d", "e", "f", "g", "h", "k", "m"}
-var trickyNames = []string{`"x y"`, `"a.b"`, `"q'uote"`, "ünï", `"<b>&amp;"`, `"tab\tsep"`, "A", `"1"`, `"->"`, `"nu ll"`, `"d$"`, `"semi;colon"`, `"brace{}"`, `"日本"`, `"😀"`}
+var trickyNames = []string{`"ZQXJ<x a=\"1\">"`, `"ZQXJ\" id=\"z"`, `"x y"`, `"a.b"`, `"q'uote"`, "ünï", `"<b>&amp;"`, `"tab\tsep"`, "A", `"1"`, `"->"`, `"nu ll"`, `"d$"`, `"semi;colon"`, `"brace{}"`, `"日本"`, `"😀"`}
 var plainLabels = []string{"hello", "Hello World", "a longer label with several words", "x", "42", "UPPER lower", "multi\\nline"}
-var trickyLabels = []string{`"<script>alert(1)</script>"`, `"a & b < c > d"`, `"quote \" inside"`, `"it's"`, `"]]> cdata"`, `"ünïcödé 日本語 😀"`, `"--> arrow"`, `"&lt;already&gt;"`, `"tab\there"`, `""`, `"x' y=\"1"`}
+var trickyLabels = []string{`"ZQXJ\" onload=\"alert(1)"`, `"</text><script>ZQXJ()</script>"`, `"ZQXJ' x='1"`, `"<script>alert(1)</script>"`, `"a & b < c > d"`, `"quote \" inside"`, `"it's"`, `"]]> cdata"`, `"ünïcödé 日本語 😀"`, `"--> arrow"`, `"&lt;already&gt;"`, `"tab\there"`, `""`, `"x' y=\"1"`}
 var colors = []string{"red", `"#ff0000"`, `"#0f0"`, "blue", `"#A1B2C3"`, "honeydew", `"linear-gradient(#f00, #00f)"`}
 var NearConsts = []string{"top-left", "top-center", "top-right", "center-left", "center-right", "bottom-left", "bottom-center", "bottom-right"}
 
@@ -176,11 +177,15 @@ func (x *g) obj(abs, ind string, depth int, role string, budget *int) string {
 			fmt.Fprintf(&x.sb, "%sicon: https://icons.terrastruct.com/essentials/004-picture.svg\n", in2)
 		}
 	}
-	if x.o.Tricky && x.p(20) {
+	if (x.o.Tricky || x.o.Tooltips) && x.p(20) {
 		fmt.Fprintf(&x.sb, "%stooltip: %s\n", in2, x.label())
 	}
-	if x.o.Tricky && x.p(10) {
-		fmt.Fprintf(&x.sb, "%slink: https://example.com/?q=%d&r=\"x\"\n", in2, x.r.Intn(9))
+	if (x.o.Tricky || x.o.Tooltips) && x.p(10) {
+		if x.o.Tricky {
+			fmt.Fprintf(&x.sb, "%slink: https://example.com/?q=%d&r=\"x\"\n", in2, x.r.Intn(9))
+		} else {
+			fmt.Fprintf(&x.sb, "%slink: https://example.com/%d\n", in2, x.r.Intn(9))
+		}
 	}
 	x.styles(in2, false)
 	if isContainer {
